@@ -17,7 +17,7 @@ def gen(tier, seed):
     cases = []
     for kind in ('SE3', 'SE2', 'R2', 'R3'):
         for n_poses in (2, 3, 4):
-            for _ in range((12 if thorough else 3) * (2 if kind == 'SE3' else 1)):
+            for _ in range((30 if thorough else 3) * (2 if kind == 'SE3' else 1)):
                 c = GC.gen_graph(rnd, kind, n_poses, rnd.choice([0, 1]) if kind in ('SE2', 'SE3') else 0, rnd.choice([0, 1]), custom=False,
                                  fixed_mode=rnd.choice(['some', 'landmark']), fix_first=False)
                 if not any(v['fixed'] for v in c['verts']):
